@@ -49,35 +49,48 @@ ACases == {ACase(n, k) : n \in ExportCounts, k \in 0..(IF Thorough THEN 7 ELSE 1
 \* wrong number of segments; big = success, declared exports, 30000-byte output (two of them exceed W_R together);
 \* huge = success, declared exports, 50000-byte output (exceeds W_R alone)
 SmallE == <<0, 1, 2, 3, 5>>
-XKinds == <<"ok", "err_none", "ok_more", "err_exact", "ok", "ok_fewer", "err_more", "big", "err_fewer", "huge">>
+\* ok_more0 / err_more0: the item DECLARES NO exports (w_e = 0) and the refinement hands back one / two segments all the same
+ErrKinds == {"err_none", "err_exact", "err_more", "err_fewer", "err_more0"}
+XKinds == <<"ok", "err_none", "ok_more", "err_exact", "ok", "ok_fewer", "err_more", "big", "err_fewer", "huge", "ok_more0", "err_more0">>
 NeedsExports(kd) == kd \in {"err_exact", "err_fewer", "ok_fewer", "big", "huge"}
 XItem(ni, nx, k, kd) == LET e0 == SmallE[((k + ni) % Len(SmallE)) + 1]
-                        IN [Item(ni, nx, k) EXCEPT !.e = IF NeedsExports(kd) /\ e0 = 0 THEN 2 ELSE e0]
+                        IN [Item(ni, nx, k) EXCEPT !.e = IF kd \in {"ok_more0", "err_more0"} THEN 0 ELSE IF NeedsExports(kd) /\ e0 = 0 THEN 2 ELSE e0]
 NRet(kd, e) == CASE kd \in {"ok", "err_exact", "big", "huge"} -> e
                  [] kd = "err_none" -> 0
-                 [] kd \in {"ok_more", "err_more"} -> e + 1
+                 [] kd \in {"ok_more", "err_more", "ok_more0"} -> e + 1
+                 [] kd = "err_more0" -> e + 2
                  [] OTHER -> e - 1
-XiOf(kinds, k) ==
+\* authout: the authorizer output; reps[jj] > 0 overrides the length of item jj's output blob (3 + reps[jj] bytes)
+XiOfR(kinds, k, authout, reps) ==
   LET n == Len(kinds)
       ws == [jj \in 1..n |-> XItem((jj + k) % 4, (jj * 2 + k) % 5, jj + 3 * k, kinds[jj])]
       owns == [jj \in 1..n |-> [q \in 1..NRet(kinds[jj], ws[jj].e) |-> Segment(<<jj, q, k + 1>>)]]
       outs == [jj \in 1..n |->
-                 [t |-> IF kinds[jj] \in {"err_none", "err_exact", "err_more", "err_fewer"} THEN (IF (jj + k) % 2 = 0 THEN "panic" ELSE "out-of-gas") ELSE "ok",
-                  data |-> IF kinds[jj] \in {"err_none", "err_exact", "err_more", "err_fewer"} THEN <<>> ELSE <<jj, k, 5>>,
-                  datarep |-> IF kinds[jj] = "big" THEN 30000 ELSE IF kinds[jj] = "huge" THEN 50000 ELSE 0,
+                 [t |-> IF kinds[jj] \in ErrKinds THEN (IF (jj + k) % 2 = 0 THEN "panic" ELSE "out-of-gas") ELSE "ok",
+                  data |-> IF kinds[jj] \in ErrKinds THEN <<>> ELSE <<jj, k, 5>>,
+                  datarep |-> IF reps[jj] > 0 THEN reps[jj] ELSE IF kinds[jj] = "big" THEN 30000 ELSE IF kinds[jj] = "huge" THEN 50000 ELSE 0,
                   segs |-> owns[jj], u |-> Gases[((jj + k) % Len(Gases)) + 1]]]
       script == [jj \in 1..n |-> [t |-> outs[jj].t, dlen |-> Len(outs[jj].data) + outs[jj].datarep, nret |-> Len(owns[jj])]]
-      authout == <<k, 1>>
       failed == FailedItems(ws, script, Len(authout))
       all == AllSegments(ws, failed, owns, 1)
   IN [kind |-> "Xi", kinds |-> kinds, items |-> ws, outs |-> outs, h |-> Byte32(200 + n + k), blen |-> BundleLens[((n + k) % Len(BundleLens)) + 1],
       bfill |-> k, core |-> k % 2, authgas |-> Gases[(k % Len(Gases)) + 1], authout |-> authout,
       want_ys |-> [jj \in 1..n |-> B2b(Lit(ws[jj].payload))], want_root |-> M(all, "b2b"), nsegs |-> Len(all), offsets |-> ExportOffsets(ws)]
+XiOf(kinds, k) == XiOfR(kinds, k, <<k, 1>>, [jj \in 1..Len(kinds) |-> 0])
+\* the W_R budget is shared by the authorizer output and all successful outputs: sizes on both sides of
+\* |o| + sum = W_R, for one item and for the second of two items, with the declared exports handed back
+Boundary(L, k) ==
+  LET o == [i \in 1..L |-> (i + k) % 256]
+      One(d) == XiOfR(<<"big">>, k, o, <<d - 3>>)
+      Two(d) == XiOfR(<<"big", "big">>, k + 1, o, <<29997, d - 3>>)
+  IN {One(WR - L), One(WR - L + 1), One(WR), Two(WR - L - 30000), Two(WR - L - 30000 + 1)}
+BoundaryCases == UNION {Boundary(L, L % 7) : L \in (IF Thorough THEN {1, 2, 200, 4000} ELSE {200})} \cup {XiOfR(<<"big">>, 3, <<9>>, <<WR - 1 + 1 - 3>>)}
 Rotated(n, k) == [jj \in 1..n |-> XKinds[((jj + k) % Len(XKinds)) + 1]]
-FixedKinds == {<<"big", "big">>, <<"huge", "ok">>, <<"err_exact", "ok">>, <<"ok", "err_exact", "err_more", "ok_fewer">>, <<"big", "ok", "big", "ok">>,
+FixedKinds == {<<"ok_more0", "ok">>, <<"ok", "err_more0", "ok">>, <<"ok", "ok_more0", "ok">>, <<"ok_more0">>, <<"big", "big">>, <<"huge", "ok">>, <<"err_exact", "ok">>, <<"ok", "err_exact", "err_more", "ok_fewer">>, <<"big", "ok", "big", "ok">>,
                <<"ok", "err_fewer", "err_none", "ok">>}
 XiCases == {XiOf(Rotated(n, k), k) : n \in 1..(IF Thorough THEN 8 ELSE 4), k \in 0..(IF Thorough THEN 39 ELSE 4)}
            \cup {XiOf(ks, k) : ks \in FixedKinds, k \in 0..(IF Thorough THEN 5 ELSE 0)}
+           \cup BoundaryCases
 
 Cases == SetToSeq(CCases) \o SetToSeq(ACases) \o SetToSeq(XiCases)
 ASSUME ndJsonSerialize(OutFile, Cases)
